@@ -121,6 +121,28 @@ def invalidate (t : Tbl) (k : Nat) (now : Int) : Tbl × Out × List Event :=
      [{ key := o.key, val := o.val, cause := getCause o now .invalidation }])
   | none => (t, .valOk 0 false, [])
 
+/-- doCompute's critical section, given what the remapping function answered for the value it was shown (visible value or
+    "not found"): WriteOp = atomicSet, InvalidateOp = atomicDelete, CancelOp leaves a visible entry alone and removes an expired
+    one; a panic or an invalid op changes nothing -/
+def computeStep (c : TCfg) (t : Tbl) (k : Nat) (act : Spec.Act) (now : Int) : Tbl × Out × List Event :=
+  let old := lookup t k
+  match act with
+  | .panic => (t, .panic, [])
+  | .bad => (t, .panic, [])
+  | .cancel =>
+    match old with
+    | some o =>
+      if hasExpired o now then (unlink t k, .valOk 0 false, [{ key := o.key, val := o.val, cause := getCause o now .invalidation }])
+      else (t, .valOk o.val true, [])
+    | none => (t, .valOk 0 false, [])
+  | .write v =>
+    let (n, evs) := atomicSet c k v old now
+    (store t k n, .valOk v true, evs)
+  | .invalidate =>
+    match old with
+    | some o => (unlink t k, .valOk 0 false, [{ key := o.key, val := o.val, cause := getCause o now .invalidation }])
+    | none => (t, .valOk 0 false, [])
+
 /-- GetIfPresent: getNode (miss for absent or expired) then the read's deadline -/
 def getIfPresent (c : TCfg) (t : Tbl) (k : Nat) (now : Int) : Tbl × Out :=
   match lookup t k with
